@@ -7,6 +7,6 @@ W=${SEED_WT:-/tmp/wt_seed}
 cd $W && git checkout -q -- . && git apply "$D/patch.diff" || { echo "APPLY-FAILED"; exit 3; }
 if cmake --build _b >/tmp/seed_build.log 2>&1; then echo "build: ok"; else echo "build: FAILED"; tail -3 /tmp/seed_build.log; fi
 ctest --test-dir _b -j8 --timeout 900 -E regress > /tmp/seed_ctest.log 2>&1; grep "tests passed\|tests failed" /tmp/seed_ctest.log
-if grep -q "tests failed" /tmp/seed_ctest.log; then grep "Failed\|\*\*\*" /tmp/seed_ctest.log | head -5; echo "rerun failed:"; ctest --test-dir _b --rerun-failed --timeout 900 2>&1 | grep "tests passed\|tests failed"; fi
+if grep -Eq "^[0-9]+% tests passed, [1-9][0-9]* tests failed" /tmp/seed_ctest.log; then grep "Failed\|\*\*\*" /tmp/seed_ctest.log | head -5; echo "rerun failed:"; ctest --test-dir _b --rerun-failed --timeout 900 2>&1 | grep "tests passed\|tests failed"; fi
 cd /verif && VERIF_REPO=$W ./check $P "$@" 2>&1 | grep -E "^(FAILURE|SUCCESS|TIMEOUT|OOM|VACUOUS|ERROR|VIOLATION|KNOWN|C[0-9]+ tier)|failed:" | cut -c1-180
 cd $W && git checkout -q -- .
